@@ -135,7 +135,80 @@ def raw_work(item):
     return part
 
 
+ENC_PW = ["s3cret-€uro", "€", "pässword☃", "密码abc", "a€b", "€€€€"]
+
+
+def enc_scenario(encoding, p, how):
+    """a client configured with an encoding that cannot represent the password (or can): all aioftp logging around
+    the failing / succeeding login is captured"""
+    with logcap.capture() as cap:
+        rig = Rig(tree={}, users=lambda a, base: users(a, base, "Other-Password-1"), server_kwargs={"encoding": encoding})
+        try:
+            w = rig.world
+            a = w.aioftp
+            codes = []
+
+            async def main():
+                try:
+                    if how == "context":
+                        async with a.Client.context("127.0.0.1", 2121, "bob", p, path_io_factory=a.MemoryPathIO,
+                                                    encoding=encoding):
+                            codes.append("ok")
+                    else:
+                        c = a.Client(path_io_factory=a.MemoryPathIO, encoding=encoding)
+                        await c.connect("127.0.0.1", 2121)
+                        try:
+                            await c.login("bob", p)
+                            codes.append("ok")
+                        finally:
+                            c.close()
+                except Exception as exc:
+                    codes.append(type(exc).__name__)
+            try:
+                w.run(main())
+            except Hang:
+                codes.append("hang")
+            w.settle(0)
+            return cap.text(), codes
+        finally:
+            rig.close()
+
+
+def enc_work(item):
+    _, encoding, how, pws = item
+    part = report.Partial()
+    for p in pws:
+        ref = "y" * (len(p) - 1) + "☃" if not p.endswith("☃") else "☂" + "y" * (len(p) - 1)
+        try:
+            p.encode(encoding)
+            ref = "y" * len(p)
+        except UnicodeEncodeError:
+            pass
+        log, codes = enc_scenario(encoding, p, how)
+        rlog, rcodes = enc_scenario(encoding, ref, how)
+        part.evaluations += 1
+        part.traces += 2
+        part.transitions += 2
+        k = report.fp(["enc", encoding, how, p])
+        part.states.add(k)
+        part.nontrivial.add(k)
+        sig = {"kind": None, "client_encoding": encoding, "via": how}
+        rp = {"enc": [encoding, how, p]}
+        if codes == rcodes and log != rlog:
+            a_l, b_l = log.split("\n"), rlog.split("\n")
+            diff = next(((x, y) for x, y in zip(a_l, b_l) if x != y), ("<length>", "<length>"))
+            sig["kind"] = "log-depends-on-password"
+            part.violation(sig, {"password_repr": repr(p), "log_line": diff[0][:200], "reference_line": diff[1][:200]}, replay=rp)
+        if len(p) >= 4 and p in log:
+            sig["kind"] = "password-literal-in-log"
+            part.violation(sig, {"password_repr": repr(p)}, replay=rp)
+    part.sample({"client_encoding": encoding, "via": how, "passwords": pws[:3]}, limit=1)
+    return part
+
+
 def work(item):
+    if item[0] == "enc":
+        return enc_work(item)
     if len(item) == 3:
         return raw_work(item)
     shape, spelling, via_client, pws = item
@@ -189,6 +262,9 @@ def build_items(tier):
     for shape in ("reject", "before-user", "after-login", "retry"):
         for sp in SPELL:
             items.append((shape, sp, RAW))
+    for enc in ("latin-1", "ascii", "cp1251"):
+        for how in ("context", "login"):
+            items.append(("enc", enc, how, ENC_PW))
     return items
 
 
@@ -199,7 +275,9 @@ def run(tier, seed, t0):
         items = items[k:] + items[:k]
     part = report.merge_all(report.pmap(work, items))
     bounds = {"alphabet": SIGMA, "max_len": 2 if tier == "quick" else 3, "extra": [repr(e)[:20] for e in EXTRA],
-              "shapes": SHAPES, "spellings": SPELL + ["Client.login"], "cases": part.evaluations}
+              "shapes": SHAPES, "spellings": SPELL + ["Client.login"], "cases": part.evaluations,
+              "raw_byte_passwords": len(RAW), "client_encodings": ["latin-1", "ascii", "cp1251"],
+              "client_entry_points": ["Client.login", "Client.context"]}
     return report.finish(
         PID, tier, seed, "model_checking", part, t0,
         rule="for every (history shape, PASS spelling or Client.login, password) the full formatted log stream of one "
@@ -214,7 +292,9 @@ def run(tier, seed, t0):
 def replay(path):
     data = json.loads(open(path).read())
     rp = data["replay"]
-    if "raw" in rp:
+    if "enc" in rp:
+        part = enc_work(("enc", rp["enc"][0], rp["enc"][1], [rp["enc"][2]]))
+    elif "raw" in rp:
         part = raw_work((rp["shape"], rp["spelling"], [rp["raw"].encode("latin-1")]))
     else:
         part = work((rp["shape"], rp["spelling"], rp["via_client"], [rp["password"]]))
